@@ -1,0 +1,143 @@
+//go:build verif
+
+// Contracts for the fvc verification-condition generator in /verif (comment-only file; it adds no
+// code to the package and is only seen with -tags verif).
+
+package encryptcookie
+
+//@ props C20
+
+// C20: handlers see authentic plaintext, clients only ciphertext.
+//
+// Vocabulary (symbolic AES-GCM model, see /verif/contracts/deps/mw_C20.spec):
+//   gcmSealed[k][box]  ghost set: box = nonce ++ GCM output was produced by Seal under the raw key k,
+//                   i.e. "issued by the server under key k"
+//   gcmOpen(k, box)    the plaintext sealed into box
+// A cookie value v is authentic under the base64 key K when it base64-decodes to an issued box. Two
+// texts that decode to the very same box are not distinguished (the property allows exactly that).
+//@ macro validKey(K) = b64ok(K) && (len(b64dec(K)) == 16 || len(b64dec(K)) == 24 || len(b64dec(K)) == 32)
+//@ macro authentic(K, v) = b64ok(v) && len(b64dec(v)) >= 12 && gcmSealed[b64dec(K)][b64dec(v)]
+//@ macro plain(K, v) = gcmOpen(b64dec(K), b64dec(v))
+
+// ---------------------------------------------------------------------------------------------
+// The default Encryptor / Decryptor
+// ---------------------------------------------------------------------------------------------
+
+//@ func EncryptCookie
+//@   requires err-var-set: ErrInvalidKeyLength != nil
+//@   modifies gcmSealed, readFilled
+//@   atcall @cipher.AEAD.Seal: nonce-freshly-read: readFilled[arr(nonce)] && len(nonce) == 12
+//@   atcall @cipher.AEAD.Seal: nonce-is-prefix: arr(dst) == arr(nonce) && len(dst) == 12
+//@   atcall @cipher.AEAD.Seal: seals-the-value: str(plaintext) == value
+//@   atcall @cipher.AEAD.Seal: under-the-given-key: gcmKey(recv) == b64dec(key)
+//@   ensures valid-key-needed: result1 == nil ==> validKey(key)
+//@   ensures invalid-key-rejected: !validKey(key) ==> result1 != nil
+//@   ensures ciphertext-only: result1 == nil ==> existsS(n, len(n) == 12 && result0 == b64enc(n + gcmSeal(b64dec(key), n, value)))
+//@   ensures issued-under-key: result1 == nil ==> authentic(key, result0)
+//@   ensures opens-to-value: result1 == nil ==> plain(key, result0) == value
+//@   ensures issues-nothing-else: forallS(k, forallS(b, gcmSealed[k][b] && !old(gcmSealed[k][b]) ==> result1 == nil && k == b64dec(key) && b == b64dec(result0)))
+//@   ensures earlier-stay-valid: forallS(k, forallS(b, old(gcmSealed[k][b]) ==> gcmSealed[k][b]))
+//@   ensures error-empty: result1 != nil ==> result0 == ""
+
+//@ func DecryptCookie
+//@   requires err-var-set: ErrInvalidKeyLength != nil
+//@   pure
+//@   atcall @cipher.AEAD.Open: box-is-whole-value: str(nonce) + str(ciphertext) == b64dec(value)
+//@   atcall @cipher.AEAD.Open: under-the-given-key: gcmKey(recv) == b64dec(key)
+//@   ensures only-authentic: result1 == nil ==> validKey(key) && authentic(key, value)
+//@   ensures original-value: result1 == nil ==> result0 == plain(key, value)
+//@   ensures authentic-accepted: validKey(key) && authentic(key, value) ==> result1 == nil
+//@   ensures error-empty: result1 != nil ==> result0 == ""
+
+//@ func GenerateKey panics
+//@   ensures valid-key: validKey(result) && len(b64dec(result)) == length
+
+//@ func isDisabled
+//@   pure
+//@   loop 1
+//@     invariant not-listed-so-far: forall(k, 0, rangeindex + 1, except[k] != key)
+//@   ensures iff-listed: result <==> exists(i, 0, len(except), except[i] == key)
+
+// ---------------------------------------------------------------------------------------------
+// Config: what every Encryptor / Decryptor has to guarantee (the defaults above are proved to).
+// ---------------------------------------------------------------------------------------------
+
+//@ func Config.Next assumed pure
+
+// arg0 = text, arg1 = base64 key
+//@ func Config.Encryptor assumed
+//@   modifies gcmSealed, readFilled
+//@   ensures valid-key-needed: result1 == nil ==> validKey(arg1)
+//@   ensures issued-under-key: result1 == nil ==> authentic(arg1, result0)
+//@   ensures opens-to-value: result1 == nil ==> plain(arg1, result0) == arg0
+//@   ensures earlier-stay-valid: forallS(k, forallS(b, old(gcmSealed[k][b]) ==> gcmSealed[k][b]))
+//@   ensures issues-nothing-else: forallS(k, forallS(b, gcmSealed[k][b] && !old(gcmSealed[k][b]) ==> result1 == nil && k == b64dec(arg1) && b == b64dec(result0)))
+
+//@ func Config.Decryptor assumed pure
+//@   ensures only-authentic: result1 == nil ==> validKey(arg1) && authentic(arg1, arg0)
+//@   ensures original-value: result1 == nil ==> result0 == plain(arg1, arg0)
+//@   ensures authentic-accepted: validKey(arg1) && authentic(arg1, arg0) ==> result1 == nil
+
+//@ func configDefault panics
+//@   requires defaults-set: ConfigDefault.Encryptor != nil && ConfigDefault.Decryptor != nil
+//@   requires global-is-allocated: allocated(ConfigDefault)
+//@   ensures key-required: result.Key != ""
+//@   ensures key-kept: len(config) > 0 ==> result.Key == config[0].Key
+//@   ensures coders-set: result.Encryptor != nil && result.Decryptor != nil
+//@   ensures custom-coders-kept: len(config) > 0 && config[0].Encryptor != nil ==> result.Encryptor == config[0].Encryptor
+//@   ensures custom-decoder-kept: len(config) > 0 && config[0].Decryptor != nil ==> result.Decryptor == config[0].Decryptor
+//@   ensures except-kept: len(config) > 0 && config[0].Except != nil ==> result.Except == config[0].Except
+
+// ---------------------------------------------------------------------------------------------
+// The middleware. K = cfg.Key, "excepted" = the cookie name is listed in cfg.Except.
+// Cookie jars are ghost maps keyed by the header object (mw_C20.spec): jarHas/jarVal/jarAttr.
+// ---------------------------------------------------------------------------------------------
+//@ macro excepted(n) = exists(i, 0, len(cfg.Except), cfg.Except[i] == n)
+
+// Request side, one call per request cookie (name key, current value `value`): what the next handler
+// will read for this name.
+//@ func New$1$1
+//@   requires visited-pair-is-current: jarHas[reqJar(c)][str(key)] && jarVal[reqJar(c)][str(key)] == str(value)
+//@   modifies jarHas, jarVal
+//@   ensures excepted-pass-through: excepted(str(key)) ==> jarVal == old(jarVal) && jarHas == old(jarHas)
+//@   ensures issued-cookie-original-value: !excepted(str(key)) && validKey(cfg.Key) && authentic(cfg.Key, str(value)) ==> jarVal[reqJar(c)][str(key)] == plain(cfg.Key, str(value))
+//@   ensures anything-else-empty: !excepted(str(key)) && !(validKey(cfg.Key) && authentic(cfg.Key, str(value))) ==> jarVal[reqJar(c)][str(key)] == ""
+//@   ensures still-present: jarHas[reqJar(c)][str(key)]
+//@   ensures other-cookies-untouched: forallS(k, k != str(key) ==> jarVal[reqJar(c)][k] == old(jarVal[reqJar(c)][k]) && jarHas[reqJar(c)][k] == old(jarHas[reqJar(c)][k]))
+//@   ensures other-jars-untouched: forallI(h, h != reqJar(c) ==> jarVal[h] == old(jarVal[h]) && jarHas[h] == old(jarHas[h]))
+
+// Response side, one call per response cookie (name key): what the client will receive for this name.
+// An Encryptor error panics (documented behaviour), so a normal return means the value was encrypted.
+// jarVal[respJar(c)][name] before the call is the value the handler wrote for the cookie.
+// KNOWN FINDING (clause ciphertext-opens-to-handler-value does not hold on the code): the visitor
+// encrypts what Response().Header.Cookie() re-parses from the serialised Set-Cookie line, and fasthttp's
+// parser trims spaces, strips enclosing double quotes and cuts at ';' - so for a handler value such as
+// " lead", "\"q\"" or "a;b" the client's ciphertext opens to "lead", "q", "a". What the code does
+// guarantee is the next clause (ciphertext-opens-to-reparsed-value).
+// Replay: /verif/replay/known/c20_reparse_test.go (TestFVCKnownC20Reparse).
+//@ func New$1$2 panics
+//@   modifies jarHas, jarVal, jarAttr, ckKey, ckVal, ckAttr, gcmSealed, readFilled
+//@   ensures excepted-pass-through: excepted(str(key)) ==> jarVal == old(jarVal) && jarHas == old(jarHas) && jarAttr == old(jarAttr) && gcmSealed == old(gcmSealed)
+//@   ensures client-gets-ciphertext-only: !excepted(str(key)) && old(jarHas[respJar(c)][str(key)]) ==> validKey(cfg.Key) && authentic(cfg.Key, jarVal[respJar(c)][str(key)])
+//@   ensures ciphertext-opens-to-handler-value: !excepted(str(key)) && old(jarHas[respJar(c)][str(key)]) ==> plain(cfg.Key, jarVal[respJar(c)][str(key)]) == old(jarVal[respJar(c)][str(key)])
+//@   ensures ciphertext-opens-to-reparsed-value: !excepted(str(key)) && old(jarHas[respJar(c)][str(key)]) ==> plain(cfg.Key, jarVal[respJar(c)][str(key)]) == ckParsed(old(jarVal[respJar(c)][str(key)]))
+//@   ensures attributes-kept: old(jarHas[respJar(c)][str(key)]) ==> jarHas[respJar(c)][str(key)] && jarAttr[respJar(c)][str(key)] == old(jarAttr[respJar(c)][str(key)])
+//@   ensures absent-cookie-no-effect: !old(jarHas[respJar(c)][str(key)]) ==> jarVal == old(jarVal) && jarHas == old(jarHas) && jarAttr == old(jarAttr) && gcmSealed == old(gcmSealed)
+//@   ensures other-cookies-untouched: forallS(k, k != str(key) ==> jarVal[respJar(c)][k] == old(jarVal[respJar(c)][k]) && jarHas[respJar(c)][k] == old(jarHas[respJar(c)][k]) && jarAttr[respJar(c)][k] == old(jarAttr[respJar(c)][k]))
+//@   ensures other-jars-untouched: forallI(h, h != respJar(c) ==> jarVal[h] == old(jarVal[h]) && jarHas[h] == old(jarHas[h]) && jarAttr[h] == old(jarAttr[h]))
+//@   ensures earlier-cookies-stay-valid: forallS(k, forallS(b, old(gcmSealed[k][b]) ==> gcmSealed[k][b]))
+//@   ensures issues-only-this-cookie: forallS(k, forallS(b, gcmSealed[k][b] && !old(gcmSealed[k][b]) ==> k == b64dec(cfg.Key) && b == b64dec(jarVal[respJar(c)][str(key)])))
+
+// The handler: request cookies are decrypted before the rest of the chain runs, response cookies are
+// encrypted after it, whatever the chain returned; both exactly once; nothing happens when skipped.
+// (The per-cookie effect of the two jarVisits is the contract of New$1$1 / New$1$2: VisitAllCookie is
+// assumed to call them once per cookie with the current pair.)
+//@ macro bypassed() = called(Config.Next) && last(Config.Next)
+//@ func New$1
+//@   requires fresh-activation: nextCalls == 0 && jarVisits[reqJar(c)] == 0 && jarVisits[respJar(c)] == 0 && reqJar(c) != respJar(c)
+//@   atcall @fiber.Ctx.Next: decrypted-before-handler: bypassed() || (jarVisits[reqJar(c)] == 1 && jarVisits[respJar(c)] == 0)
+//@   ensures skipped-untouched: bypassed() ==> nextCalls == 1 && jarVisits[reqJar(c)] == 0 && jarVisits[respJar(c)] == 0
+//@   ensures handler-ran-once: nextCalls == 1
+//@   ensures request-cookies-decrypted-first: !bypassed() ==> jarVisits[reqJar(c)] == 1 && jarVisitAtNext[reqJar(c)] == 0
+//@   ensures response-cookies-encrypted-last: !bypassed() ==> jarVisits[respJar(c)] == 1 && jarVisitAtNext[respJar(c)] == 1
+//@   ensures handler-error-returned: result == last(@fiber.Ctx.Next)
